@@ -2,7 +2,8 @@
 import re
 import t2t, corr, semrun, gen, impl, mlmath
 
-OBLIGATIONS = ['Yalafi.C11_rot_length', 'Yalafi.C11_detectParts_tok', 'Yalafi.C11_display_tokens']
+OBLIGATIONS = ['Yalafi.C11_rot_length', 'Yalafi.C11_detectParts_tok', 'Yalafi.C11_display_tokens',
+               'Yalafi.C11_display_e2e', 'Yalafi.C11_display_single_e2e', 'Yalafi.C11_display_text', 'Yalafi.C11_display_span', 'Yalafi.C11_display_punct', 'Yalafi.C11_display_punct_kept', 'Yalafi.C11_display_punct_none', 'Yalafi.C11_current_facts', 'Yalafi.C11_display_example_current', 'Yalafi.C11_display_ref_current', 'Yalafi.C11_display_e2e_current']
 
 ONLY = {'c_group', 'c_unknown', 'c_display', 'c_footnote', 'c_env_unknown'}
 
